@@ -1998,7 +1998,7 @@ TAPM = 'TermAppender'
 CAP0 = ('log_buffers . atomic_buffer ( 0 ) . capacity ( )', 'term_capacity', 'i32')
 MTU = ('log_buffer_descriptor :: mtu_length ( & log_md_buffer )', 'mtu_length', 'i32')
 ISCONN = ('log_buffer_descriptor :: is_connected ( & self . log_meta_data_buffer )', 'is_connected', 'bool')
-AREAS['pub'] = dict(out='GenSrcPub', files=[PUB, XPUB, TAPP, BIT, FD, LBD], requires=['GenSrcBits'], fns=[
+AREAS['pub'] = dict(out='GenSrcPub', files=[PUB, XPUB, TAPP, XAPP, BIT, FD, LBD], requires=['GenSrcBits'], fns=[
     # Publication
     F(PUB, PUBM, 'new_position', 'src_pub_new_position', self=['max_possible_position'], effects=['rotate_log']),
     F(PUB, PUBM, 'back_pressure_status', 'src_pub_back_pressure_status', self=['max_possible_position'], ret='err',
@@ -2065,6 +2065,22 @@ AREAS['pub'] = dict(out='GenSrcPub', files=[PUB, XPUB, TAPP, BIT, FD, LBD], requ
     F(TAPP, TAPM, 'handle_end_of_log_condition', 'src_ta_pads', frag=('cond', 'if', 0), params=['term_offset', 'term_length']),
     F(TAPP, TAPM, 'handle_end_of_log_condition', 'src_ta_padding_length', frag=('let', 'padding_length'),
       params=['term_length', 'offset'], vars={'offset': 'i32'}),
+    # ExclusiveTermAppender: lengths, the resulting offset (i32: the publication passes its own cursor) and the end-of-term decision
+    F(XAPP, 'ExclusiveTermAppender', 'claim', 'src_xta_frame_length', frag=('let', 'frame_length'), params=['length']),
+    F(XAPP, 'ExclusiveTermAppender', 'claim', 'src_xta_aligned_length', frag=('let', 'aligned_length'), params=['frame_length'],
+      vars={'frame_length': 'i32'}),
+    F(XAPP, 'ExclusiveTermAppender', 'claim', 'src_xta_resulting_offset', frag=('let', 'resulting_offset'),
+      params=['term_offset', 'aligned_length'], vars={'aligned_length': 'i32'}),
+    F(XAPP, 'ExclusiveTermAppender', 'claim', 'src_xta_trips', frag=('cond', 'if', 0), params=['resulting_offset', 'term_length'],
+      vars={'resulting_offset': 'i32', 'term_length': 'i32'}),
+    F(XAPP, 'ExclusiveTermAppender', 'append_fragmented_message', 'src_xta_required_length', frag=('let', 'required_length'),
+      params=['length', 'max_payload_length']),
+    F(XAPP, 'ExclusiveTermAppender', 'append_fragmented_message', 'src_xta_frag_resulting_offset', frag=('let', 'resulting_offset'),
+      params=['term_offset', 'required_length'], vars={'required_length': 'i32'}),
+    F(XAPP, 'ExclusiveTermAppender', 'handle_end_of_log_condition', 'src_xta_pads', frag=('cond', 'if', 0),
+      params=['term_offset', 'term_length']),
+    F(XAPP, 'ExclusiveTermAppender', 'handle_end_of_log_condition', 'src_xta_padding_length', frag=('let', 'padding_length'),
+      params=['term_length', 'term_offset']),
 ])
 
 IMGM = 'Image'
